@@ -43,6 +43,16 @@ theorem projection_inside {r : SectorRec} (hr : r ∈ SEC.good) (hh : r.half = n
     {g : M3} (hg : g ∈ r.ops) (hkg : k.mul g = M3.one) : closedS r.walls (g.actR x) :=
   argmax_projection_in_sector ((List.all_eq_true.mp all_sectors_good) r hr) hh x hk hmax hg hkg
 
+/-- PROJECTION for the two-stage sectors (321, -4, -3 and the Laue variants: half-space + cell of the subgroup that keeps
+it): after moving the direction into the half-space with a reversing operation, the argmax rule over the subgroup lands
+inside the closed sector. -/
+theorem projection_inside_two_stage {r : SectorRec} (hr : r ∈ SEC.good) {p : Z3} (hh : r.half = some p) (x : R3)
+    {s : M3} (hs : s ∈ r.ops) (hsx : 0 ≤ p.dotR (s.actR x)) {k : M3} (hk : k ∈ r.sub)
+    (hmax : ∀ m ∈ r.sub, pairR r.metric (s.actR x) (m.actR r.cert.centre.toR)
+        ≤ pairR r.metric (s.actR x) (k.actR r.cert.centre.toR))
+    {g : M3} (hg : g ∈ r.sub) (hkg : k.mul g = M3.one) : closedS r.walls (g.actR (s.actR x)) :=
+  two_stage_projection_in_sector ((List.all_eq_true.mp all_sectors_good) r hr) hh x hs hsx hk hmax hg hkg
+
 /-- projecting twice changes nothing (with the code's "keep the ones already inside" rule, for any projection
 that lands inside) -/
 theorem projection_idempotent {walls : List Z3} {f : R3 → R3} (hf : ∀ x, closedS walls (f x)) (x : R3) :
